@@ -18,6 +18,9 @@ def main(argv=None) -> int:
     ap.add_argument("--selftest", action="store_true")
     args = ap.parse_args(argv)
     prop = args.prop.upper()
+    if prop == "SELFTEST":
+        from . import selftest
+        return selftest.run()
     try:
         mod = importlib.import_module(f"harness.props.{prop}")
     except ModuleNotFoundError as e:
